@@ -436,6 +436,12 @@ impl Server {
                     .to_key(&self.base_path),
             )
             .and_then(|parser| parser.url_at(to_position(params.text_document_position.position)))
+            .filter(|url| {
+                self.database
+                    .graph()
+                    .maybe_key(&Key::from_rel_link_url(url, relative_to))
+                    .is_some()
+            })
             .map(|url| {
                 let key = Key::from_rel_link_url(&url, relative_to);
 
